@@ -115,7 +115,7 @@ func runC13(p *Program, r *Report) {
 	for _, m := range []struct {
 		r string
 		n int
-	}{{"C13.R1", 5}, {"C13.R2", 4}, {"C13.R3", 5}, {"C13.R4", 1}, {"C13.R5", 2}, {"C13.R6", 6}} {
+	}{{"C13.R1", 5}, {"C13.R2", 4}, {"C13.R3", 5}, {"C13.R4", 1}, {"C13.R5", 2}, {"C13.R6", 6}, {"C13.R7", 1}} {
 		r.Min(m.r, m.n)
 	}
 	regs, _ := p.AllRegexes()
@@ -286,6 +286,43 @@ func runC13(p *Program, r *Report) {
 					r.OK("C13.R4", c, fmtSite.Pos, "with a nil error the assembled URL satisfies "+per[1].String()+", which excludes two adjacent dot units (. or %2e) anywhere")
 				} else {
 					r.Viol("C13.R4", c, fmtSite.Pos, "an assembled URL containing a \"..\" built from arguments is returned with a nil error; guards: "+per[1].String(), w)
+				}
+			}
+		}
+		// ---- R7 the assembled URL keeps the kind of prefix the format was accepted for ---------
+		// A format that is a path ("/x…") must not expand to something that starts with "//" or "/\": an
+		// empty argument directly after the leading slash would otherwise turn the first path segment into a host.
+		{
+			c := fcn + "#path-format-stays-path"
+			L := NewLang()
+			L.Props = map[string]bool{"nil(err)": true}
+			if err := registerSumm(L, fmtSumm, fmtSite.Cond); err != nil {
+				r.Undec("C13.R7", c, fmtSite.Pos, err.Error())
+			} else {
+				const pathStart, hostStart = `^/[^/\\]`, `^/[/\\]`
+				L.MustRe(pathStart)
+				L.MustRe(hostStart)
+				L.Build()
+				S := L.SearchRe(pathStart)
+				residual := assumeOnTerm(L, fmtSite.Cond, 0, S)
+				per, _ := splitByParam(residual)
+				var d *relang.DFA
+				var err error
+				var amb []string
+				if per[1] == nil {
+					d = L.All()
+				} else {
+					d, amb, err = L.Eval(per[1])
+				}
+				switch {
+				case err != nil || len(amb) > 0:
+					r.Undec("C13.R7", c, fmtSite.Pos, fmt.Sprintf("%v %v", err, amb))
+				default:
+					if ok, w := relang.Disjoint(d, L.SearchRe(hostStart)); ok {
+						r.OK("C13.R7", c, fmtSite.Pos, "for a format that is a path, the assembled URL is returned with a nil error only if it does not start with // or /\\")
+					} else {
+						r.Viol("C13.R7", c, fmtSite.Pos, "a format that is a path (\"/%{a}/%{b}/x.js\") can expand to a URL that starts with \"//\" or \"/\\\" (an empty argument directly after the leading slash): the browser then reads the next segment as the host, so an argument chooses the origin", w)
+					}
 				}
 			}
 		}
@@ -636,4 +673,34 @@ func isCallTo2(in ssa.Instruction, full string) (*ssa.Call, bool) {
 		return nil, false
 	}
 	return c, true
+}
+
+// assumeOnTerm: the formula f under the assumption that the string variable #key lies in S: every atom about that
+// variable whose language contains S is replaced by true, every atom whose language is disjoint from S by false;
+// atoms that S does not decide become unknown.
+func assumeOnTerm(L *Lang, f *Form, key int, S *relang.DFA) *Form {
+	switch f.Op {
+	case "atom":
+		if f.Atom.Kind == "prop" || f.Atom.Term.Key() != key {
+			return f
+		}
+		d, amb, err := L.Eval(f)
+		if err != nil || len(amb) > 0 {
+			return fUnknown("atom not evaluable under the assumption")
+		}
+		if ok, _ := relang.Subset(S, d); ok {
+			return fTrue()
+		}
+		if ok, _ := relang.Disjoint(S, d); ok {
+			return fFalse()
+		}
+		return fUnknown("not decided by the assumption: " + f.Atom.Desc)
+	case "and", "or", "not", "over", "over2":
+		subs := make([]*Form, len(f.Sub))
+		for i, s := range f.Sub {
+			subs[i] = assumeOnTerm(L, s, key, S)
+		}
+		return &Form{Op: f.Op, Sub: subs, Atom: f.Atom, Why: f.Why, In: f.In}
+	}
+	return f
 }
